@@ -23,7 +23,16 @@ LEVEL_TEXT = ("Verified validator, run per generated program. Kernel-checked onc
               "rejected tree names the path of the first offending node. Plus, on the same programs, behavioural "
               "correspondence (model um/mar and the extracted tree's own run vs the real results, valid values and junk) and "
               "an independent metamorphic oracle on the real code alone (composite = rebuild of independently converted "
-              "members with exception parity, recursively; mapping / pairs / JSON text / foreign-instance sources alike).")
+              "members with exception parity, recursively; mapping / pairs / JSON text / foreign-instance sources alike). "
+              "Routine COMPILER (Model/Compile.lean: compileU / compileM, cycles cut where a class meets itself on the path): "
+              "`compile_adequate_*` — for EVERY annotation whose classes are declared and whose Literal members are primitives "
+              "(decidable `compilable`, `compilableEnv`; implied by wfTy / wfEnv) the validator accepts the compiled tree, hence "
+              "`compile_sound_*` (the compiled tree computes the denotation on every input) and `compile_graph_ok` / "
+              "`compile_graph_sound_unmarshal` (the compiled routine graph of a root with cycles is validated, no assumption on "
+              "proxies left); `compile_dispatch_*` re-decides the compiler's routine class per annotation kind against the "
+              "regenerated handler tables. Tied to the code per instance: every extracted tree (root and every Delayed target) "
+              "is compared node by node with the model compiler's tree of the same annotation, up to Delayed targets "
+              "(coverage.stats compile:*).")
 LEVEL_NOTE = ("Not a proof about typelib's routine compiler for all programs: the validator is proved sound, the programs are "
               "sampled (count in coverage.programs). Annotations and class environments are wrapper-erased (NewType / alias / "
               "Final dropped; relating T and erase T is C11). Trusted: Lean kernel; axioms propext, Classical.choice, Quot.sound; "
@@ -52,6 +61,9 @@ ASSUMPTIONS = [
     "JSON-text source shape: integers within 64 bits (the default decoder, orjson, reads larger ones as floats; C02/C14 state the same range)",
     "model vs real is not compared on an input containing a set of >= 2 elements when the outcomes differ and the set can reach a "
     "positional routine (union member or junk input): the result then depends on the hash order of the real set",
+    "compiler correspondence is structural equality UP TO Delayed targets: which class references the real library defers "
+    "beyond the forced ones (a class below itself) depends on graphlib's queue order (C09) and is not modelled by the compiler; "
+    "a proxy and the tree of its target are interchangeable by graph_sound_*",
     "the metamorphic oracle decomposes only inputs in a plain shape (list/tuple/set/deque for collections, dict for mappings "
     "and structured classes); other inputs are judged by the correspondence alone",
 ]
@@ -582,6 +594,66 @@ def make_jobs(ctx, n_prog, depth, first=0):
     return jobs
 
 
+def compare_compiled(real, model, path="root"):
+    """The tree EXTRACTED from the real routines vs the tree of the MODEL compiler (driver op `routine.compile`,
+    same node format + "ann" = the erased annotation a node serves): equal node by node — class, `.t` of leaves /
+    enums / structs, `.origin`, Literal values, `nullable`, member count and order, field names in order, `required`
+    as a set — up to Delayed targets: the real tree may hold `Delayed -> X` where the model holds the tree of X
+    (X must be the annotation of that position).  Returns (mismatch description | None, number of such extra proxies)."""
+    rc, mc = real["c"], model["c"]
+    if rc.startswith("Delayed"):
+        target = model["t"] if mc.startswith("Delayed") else model["ann"]
+        if real.get("t") != target:
+            return f"{path}: Delayed proxy resolves to {real.get('tr')} where the position is annotated {json.dumps(target)}", 0
+        return None, (0 if mc.startswith("Delayed") else 1)
+    if mc.startswith("Delayed"):
+        return f"{path}: the model defers a class reference below itself, the real tree holds {rc}", 0
+    if rc != mc:
+        return f"{path}: real routine class {rc}, model {mc}", 0
+    for k in ("t", "o", "nullable"):
+        if k in model and real.get(k) != model[k]:
+            return f"{path}: attribute {k}: real {json.dumps(real.get(k))}, model {json.dumps(model[k])}", 0
+    if "required" in model and sorted(real.get("required", [])) != sorted(model["required"]):
+        return f"{path}: required: real {real.get('required')}, model {model['required']}", 0
+    extra = 0
+    if "values" in model:
+        if isinstance(model["values"], dict):
+            if not isinstance(real.get("values"), dict):
+                return f"{path}: no member routine in .values", 0
+            bad, n = compare_compiled(real["values"], model["values"], path + ".values")
+            if bad:
+                return bad, 0
+            extra += n
+        elif real.get("values") != model["values"]:
+            return f"{path}: Literal values: real {real.get('values')}, model {model['values']}", 0
+    if "keys" in model:
+        if not isinstance(real.get("keys"), dict):
+            return f"{path}: no member routine in .keys", 0
+        bad, n = compare_compiled(real["keys"], model["keys"], path + ".keys")
+        if bad:
+            return bad, 0
+        extra += n
+    if "rs" in model:
+        rr = real.get("rs", [])
+        if len(rr) != len(model["rs"]):
+            return f"{path}: {len(rr)} member routines, model {len(model['rs'])}", 0
+        for i, (a, b) in enumerate(zip(rr, model["rs"])):
+            bad, n = compare_compiled(a, b, f"{path}[{i}]")
+            if bad:
+                return bad, 0
+            extra += n
+    if "fields" in model:
+        rf = real.get("fields", [])
+        if [k for k, _ in rf] != [k for k, _ in model["fields"]]:
+            return f"{path}: fields {[k for k, _ in rf]}, model {[k for k, _ in model['fields']]}", 0
+        for (k, a), (_, b) in zip(rf, model["fields"]):
+            bad, n = compare_compiled(a, b, f"{path}.{k}")
+            if bad:
+                return bad, 0
+            extra += n
+    return None, extra
+
+
 def _composite(ts):
     b = _body(ts)
     return b[0] in ("coll", "tuple", "dict", "cls", "union") or (b[0] == "wrap" and _composite(b[2]))
@@ -609,6 +681,10 @@ def judge(res, jobs, real):
                 lines.append({"op": "routine.validate", "dir": d, "ty": ty, "tree": gr["graph"][0][1],
                               "keys": [k for k, _ in gr["graph"] if k is not None]})
                 index.append((ji, "root", d))
+                # the MODEL compiler's tree of every key of the graph (root first)
+                for ei, (k, _) in enumerate(gr["graph"]):
+                    lines.append({"op": "routine.compile", "dir": d, "ty": ty if ei == 0 else k})
+                    index.append((ji, "compile", (d, ei)))
         for ci, (case, rec) in enumerate(zip(job["cases"], ro["cases"])):
             def add(kind, op):
                 lines.append(op)
@@ -679,6 +755,22 @@ def judge(res, jobs, real):
                 entry = 0 if not vr["adequate"] else (vg["entry"] or 0)
                 discrepancy(f"the validator rejects the real {'un' if d == 'u' else ''}marshaller tree at {path}", inp,
                             {"tree": graph[entry]}, {"adequate": False, "path": path})
+            # ---- (i') the extracted tree against the model compiler's tree, up to Delayed targets
+            for ei, (k, tree) in enumerate(graph):
+                mc = mo.get(("compile", (d, ei)))
+                if mc is None or "bad" in mc:
+                    raise RuntimeError(f"driver: routine.compile failed: {mc} for {ann}")
+                if not (mc["compilable"] and mc["adequate"]):
+                    raise RuntimeError(f"harness: generated annotation outside the compiler theorem's side conditions: {ann} {mc}")
+                res.case({"ann": ann, "dir": d, "compile": k}, _composite(ts))
+                bad, extra = compare_compiled(tree, mc["tree"])
+                if bad is None:
+                    res.count(f"compile:{d}:" + ("identical" if extra == 0 else "same-up-to-delayed"))
+                    res.count(f"compile:{d}:extra-proxies-in-real-tree", extra)
+                else:
+                    res.count(f"compile:{d}:DISAGREE")
+                    discrepancy(f"the real {'un' if d == 'u' else ''}marshaller tree differs from the model compiler's at {bad}",
+                                {**inp, "key": k}, {"tree": tree}, {"tree": mc["tree"]})
         # ---- (ii) behavioural correspondence, (iii) oracle
         for ci, (case, rec) in enumerate(zip(job["cases"], ro["cases"])):
             inp = {**base, "case": case}
